@@ -660,7 +660,7 @@ def _judge(c):
         ulp = 6e-8 if dt == np.float32 else 1.2e-16
         pert = D * (1 + ulp * np.random.RandomState(0).choice([-1.0, 1.0], size=D.shape))
         sens = abs(float(max(abs(np.linalg.eigvals(pert)))) - rho0) / rho0
-        rt = max(rt, 50 * sens)
+        rt = min(max(rt, 2000 * sens), 5e-2)
         if abs(rho - sr) > rt * sr:
             return _viol("sr:radius-mismatch", "%s(sr=%r) has spectral radius %r" % (init, sr, rho), c, sr, rho)
     # ---- input scaling
